@@ -180,12 +180,16 @@ def translate(sources: dict | None = None, pins: dict | None = None):
                 fail(f"{k}: shape changed (pin {got.get(k)} != {v}); the hand-written job machine may no longer match")
 
     b = lambda x: "true" if x else "false"
-    variant = {"release_if_holds": g1 == "holds", "recheck_on_skip": r1, "ctx_strict": filt[0], "pending_owner_safe": pop_own}
+    # ctx_exact: the recognised strict filter works on CallNode tags (`~exists(Tag on CallNode.call_hash)`), and a CallNode
+    # is shared by every call with the same call hash, so a context-free look-up also skips the node of a context-free
+    # call once a twin under a context tagged it: not exact. Without the else-branch nothing is skipped.
+    variant = {"release_if_holds": g1 == "holds", "recheck_on_skip": r1, "ctx_strict": filt[0], "pending_owner_safe": pop_own,
+               "ctx_exact": not filt[0]}
     text = ("(* GENERATED by translate/tr_sched.py from /repo/redun/scheduler.py and backends/db/__init__.py *)\n"
             "From RV Require Import Model.JobMachine.\n"
             f"Definition gen_variant : variant := {{| release_if_holds := {b(variant['release_if_holds'])}; "
             f"recheck_on_skip := {b(variant['recheck_on_skip'])}; ctx_strict := {b(variant['ctx_strict'])}; "
-            f"pending_owner_safe := {b(variant['pending_owner_safe'])} |}}.\n")
+            f"pending_owner_safe := {b(variant['pending_owner_safe'])}; ctx_exact := {b(variant['ctx_exact'])} |}}.\n")
     return text, variant, got
 
 
